@@ -548,23 +548,25 @@ Proof. intros c. destruct c; cbn; tauto. Qed.
 Theorem render_ctl_rt : forall c, parse_ctl (render_ctl c) = Some c.
 Proof. intros c. destruct c; vm_compute; reflexivity. Qed.
 
-(* at the grammar level (cddl.pest's ordered choice control_name) the printed name followed by a blank is read back as
-   the same operator for every operator except .cborseq, which the grammar can never produce ("cbor" is tried first) *)
-Theorem render_ctl_peg_partial : forall c rest, c <> CCborseq -> peg_ctl (render_ctl c ++ 32 :: rest) = Some (c, 32 :: rest).
-Proof. intros c rest H. destruct c; try reflexivity. congruence. Qed.
+(* at the grammar level (cddl.pest's control_name: ordered choice + token boundary) the printed name followed by a blank
+   is read back as the same operator, for all 37 operators and whatever follows the blank *)
+Theorem render_ctl_peg_rt : forall c rest, peg_ctl (render_ctl c ++ 32 :: rest) = Some (c, 32 :: rest).
+Proof. intros c rest. destruct c; reflexivity. Qed.
 
-Theorem render_ctl_peg_refuted : peg_ctl (render_ctl CCborseq ++ [32]) = Some (CCbor, [115; 101; 113; 32]).
-Proof. vm_compute. reflexivity. Qed.
+(* the token boundary: a name glued to an identifier character is not an operator (`.sizefoo`, `.abnfbstr`) *)
+Example peg_ctl_needs_boundary : peg_ctl (render_ctl CAbnf ++ [98; 115; 116; 114]) = None
+                                 /\ peg_ctl (render_ctl CCborseq ++ [32]) = Some (CCborseq, [32]).
+Proof. vm_compute. split; reflexivity. Qed.
 
 (* Type1::fmt writes a blank after every control operator, so whatever the controller starts with, the operator is read
    back as itself (`"x" .abnf bstr` prints `"x".abnf bstr`) *)
-Theorem render_type1_ctl : forall name_like left c right, c <> CCborseq ->
+Theorem render_type1_ctl : forall name_like left c right,
   exists pre, render_type1 name_like left (render_ctl c) true right = pre ++ render_ctl c ++ 32 :: right /\
               peg_ctl (render_ctl c ++ 32 :: right) = Some (c, 32 :: right).
 Proof.
-  intros nl left c right H. exists (left ++ if nl then [32] else []). split.
+  intros nl left c right. exists (left ++ if nl then [32] else []). split.
   - unfold render_type1. rewrite orb_true_r, <- !app_assoc. reflexivity.
-  - apply render_ctl_peg_partial. exact H.
+  - apply render_ctl_peg_rt.
 Qed.
 
 (* ------------------------------------------------------------------ identifiers, sockets, markers *)
